@@ -228,8 +228,8 @@ fn gen_brk(r: &mut Rng, thorough: bool, big: bool) -> Sc {
     let nb = r.below(6);
     for _ in 0..nb {
         let start = 0x1000 + r.below(12) * 0x1000 + *r.pick(&[0u64, 0, 0x800, 0x10]);
-        let len = *r.pick(&[0x10u64, 0x100, 0x800, 0x1000, 0x1800, 0x4000]);
-        if !blockers.iter().any(|b| intersects(start, len, b.0, b.1)) {
+        let len = *r.pick(&[0u64, 0x10, 0x100, 0x800, 0x1000, 0x1800, 0x4000]);
+        if !blockers.iter().any(|b| intersects(start, len, b.0, b.1) || b.0 == start) {
             blockers.push((start, len));
         }
     }
@@ -820,7 +820,8 @@ fn run_brk(sc: &Sc, ax: &mut Axecutor, marks: &[u64], _seen: &Rc<RefCell<Vec<(u6
                 // never at the very start of a still empty heap: two areas with one start address are C10's grey zone
                 let start = h.0 + h.1 + gap + (h.1 == 0 && *gap == 0) as u64;
                 // read-only: the guest cannot legitimately change it, whatever its stores beyond the break hit
-                let made = matches!(catch(|| ax.mem_init_area(start, vec![0xb7; *len as usize])), Ok(Ok(()))) && matches!(catch(|| ax.mem_prot(start, 1)), Ok(Ok(())));
+                // (not where another area already starts: mem_prot addresses areas by their start)
+                let made = !area_snapshot(ax).iter().any(|a| a.0 == start) && matches!(catch(|| ax.mem_init_area(start, vec![0xb7; *len as usize])), Ok(Ok(()))) && matches!(catch(|| ax.mem_prot(start, 1)), Ok(Ok(())));
                 ctx.event(&format!("host_block:{}", if made { "created" } else { "refused" }), "");
                 if made {
                     ctx.fault("area_created_behind_live_heap");
